@@ -61,6 +61,7 @@ func runC03(c *Ctx) {
 	c03DispatchGated(c)
 	c03FailClosed(c)
 	c03Cache(c)
+	c03ExtensionRegistration(c)
 	c03NoGlobalRuleMutation(c, "C03")
 }
 
@@ -744,4 +745,61 @@ func firstN(l []string, n int) string {
 		return strings.Join(l[:n], "; ") + sprintf("; … (%d more)", len(l)-n)
 	}
 	return strings.Join(l, "; ")
+}
+
+// c03ExtensionRegistration: processExtensions must look at every hook interface of every extension independently.
+func c03ExtensionRegistration(c *Ctx) {
+	c.R.Rule("extension-registration", "in executor.processExtensions each of the six hook interfaces (operation-parameter mutator, operation-context mutator, operation / response / root-field / field interceptor) is tested with its own comma-ok assertion that is not control-dependent on another hook assertion having failed: an extension implementing several hooks is registered for all of them", 6)
+	fn := c.fn(pkgExecutor, "processExtensions")
+	if fn == nil {
+		return
+	}
+	hooks := []string{"OperationParameterMutator", "OperationContextMutator", "OperationInterceptor", "ResponseInterceptor", "RootFieldInterceptor", "FieldInterceptor"}
+	asserts := map[string][]*ssa.TypeAssert{}
+	isHookAssert := func(v ssa.Value) (string, bool) {
+		ex, ok := v.(*ssa.Extract)
+		if !ok || ex.Index != 1 {
+			return "", false
+		}
+		ta, ok := ex.Tuple.(*ssa.TypeAssert)
+		if !ok {
+			return "", false
+		}
+		for _, h := range hooks {
+			if an.NamedIs(ta.AssertedType, pkgGraphql, h) {
+				return h, true
+			}
+		}
+		return "", false
+	}
+	for _, b := range fn.Blocks {
+		for _, in := range b.Instrs {
+			if ta, ok := in.(*ssa.TypeAssert); ok && ta.CommaOk {
+				for _, h := range hooks {
+					if an.NamedIs(ta.AssertedType, pkgGraphql, h) {
+						asserts[h] = append(asserts[h], ta)
+					}
+				}
+			}
+		}
+	}
+	for _, h := range hooks {
+		tas := asserts[h]
+		if len(tas) == 0 {
+			c.R.Bad("processExtensions/"+h, c.pos(fn.Pos()), "extensions are never tested for the "+h+" hook: such extensions are accepted by Use but their hook never runs")
+			continue
+		}
+		bad := ""
+		for _, ta := range tas {
+			for _, g := range an.BlockGuards(ta.Block()) {
+				f := an.FactOf(g)
+				if f.Op == token.ILLEGAL && f.Neg {
+					if other, ok := isHookAssert(f.X); ok && other != h {
+						bad = "the " + h + " test only runs when the extension is not a " + other + " (a type switch / else-if chain): an extension implementing both is registered for the first hook only"
+					}
+				}
+			}
+		}
+		c.R.Check(bad == "", "processExtensions/"+h, c.ipos(tas[0]), "independent comma-ok assertion", bad)
+	}
 }
